@@ -63,4 +63,14 @@ example : exportFormat fhIeee = 5 ∧ exportFileHeader fhIeee = fhIeee := by
   refine ⟨by decide, file_header_identical fhIeee (.inr (by decide))⟩
 example : exportFormat (fun i => if i = 3225 then 8 else 0) = 1 := by decide
 
+/-- the export is self-consistent: a SEG-Y reader that takes the number of extended textual headers from the exported file's
+own binary header (the source's, byte for byte, for formats 1 and 5; only the format word differs otherwise) finds every
+trace where the exporter put it -/
+theorem traces_where_the_header_says (fh : Nat → Nat) (ns t : Nat) :
+    segyTraceOffset (exportFileHeader fh) ns t = exportTraceOffset fh ns t := by
+  unfold segyTraceOffset exportTraceOffset extCount exportFileHeader
+  by_cases h : supportedFormat (formatOf fh) = true
+  · rw [if_pos h]
+  · rw [if_neg h]; rfl
+
 end Sgz.Props.C06
